@@ -46,8 +46,9 @@ def run(ctx, case):
     spec = case["spec"]  # (the effective spec: a history may have reset some phase configurations)
     phases = list(spec["phases"].keys())
     # (iii) unknown phase
-    for bad in ("ghost", "nope", phases[0] + " "):
-        if bad in phases:
+    # (fragments, extensions and case variants of a defined name are unknown phases too)
+    for bad in ("ghost", "nope", phases[0] + " ", phases[-1][:-1], phases[0] + "2", phases[0].swapcase(), phases[-1][1:]):
+        if bad in phases or bad == "":
             continue
         st, r = H.solve(sysobj, phase=bad)
         ctx.check("unknown_phase.rejected", st == "raise" and isinstance(r, ValueError),
